@@ -146,6 +146,35 @@ def run_more(ctx):
             ctx.fail("next-vs-read", "after %d tokens: %s" % (j, problem), [ncases[g * len(probes) + q] for q in range(len(probes))],
                      [" ".join(res[pr])[:200] for pr in probes])
 
+    # ------------------------------------------------------------ call mixes, run to the end of the op list (through failing
+    # calls): reader = lexer call by call (theorem C08_reader_ops_eq_lexer_ops; model side = extracted BinOps)
+    mcases, mgroups = [], []
+    for k, d in enumerate(datas):
+        if rng.random() > ctx.scale(0.6, 1.0):
+            continue
+        toks, end, _ = B.py_lex(d)
+        rops, lops = [], []
+        for _ in range(len(toks) + 3):
+            r = rng.random()
+            if r < 0.4: rops.append("n"); lops.append("n")
+            elif r < 0.8: rops.append("r"); lops.append("t")
+            else:
+                nb = rng.choice([0, 1, 2, 3, 4, 6, 9]); rops.append("by%d" % nb); lops.append("by%d" % nb)
+        need = max(B.ops_need(d, lops), 1)
+        first = len(mcases)
+        for s_ in rng.sample(B.schedules(rng, len(d), 2), 3):
+            cap = rng.choice([need, need, need + 1, len(d) + 1])
+            mcases.append("bl.mrops\t%s\t%d\t%s\t%s" % (hexs(d), cap, B.sched_str(s_), ",".join(rops)))
+        mcases.append("bl.mlops\t%s\t%s" % (hexs(d), ",".join(lops)))
+        mgroups.append((first, len(mcases) - 1))
+    mimpl, _ = ctx.correspond("ops_model", mcases, nontrivial=lambda c, i: " " in i)
+    mb = len(mimpl) - len(mcases)
+    for first, last in mgroups:
+        ref = mimpl[mb + last]
+        for g in range(first, last):
+            if mimpl[mb + g] != ref:
+                ctx.fail("reader-ops-all", "call mix: reader %s, lexer %s" % (mimpl[mb + g][:300], ref[:300]), [mcases[g], mcases[last]], [mimpl[mb + g][:800]], ref[:800])
+
     # ------------------------------------------------------------ construction modes
     ccases, cmeta = [], []
     pool = [d for d in datas if len(d) >= 4] or [b"\x03\x00\x04\x00"]
